@@ -66,7 +66,7 @@ def r12_1(ctx):
             continue
         sb, latched_t, open_t = sw[0]
         stores = _field_store_true(fn, "ending")
-        ctx.ob("R12.1", f"{name}:latch-set-sites", len(stores) >= 3, fn.loc(), f"`ending = true` is stored at {len(stores)} sites (floor 3: utf-8 error, end of container, parse error)", nontrivial=False)
+        ctx.ob("R12.1", f"{name}:latch-set-sites", len(stores) >= 1, fn.loc(), f"`ending = true` is stored at {len(stores)} site(s); every terminal exit below must be dominated by one", nontrivial=False)
         k = 0
         for b, kind, s in return_kinds(fn):
             terminal = False
